@@ -283,6 +283,8 @@ def run(w: World, rep: Report):
                   file='tapescript/tools.py', trivial=not rd,
                   why='' if not rd else f'`{ast.unparse(rd[0])[:30]}` is written by the instruction only when its flag is set: with '
                   f'the flag off the helper raises KeyError instead of returning the documented result')
+    from .rules_templates import sigflags_forwarded
+    sigflags_forwarded(w, rep, 'C17.R9')
     rep.explanation = (
         'Narrow: decides only a necessary condition of "the adapter passes the adapter check" - that both makers '
         'feed the Fiat-Shamir hash the same term shape as the checker (aggregate of nonce point and tweak point, '
